@@ -1,10 +1,16 @@
-"""C15 - no memory error / UB / failed assertion / leak on valid use (DESIGN 5.15).
+"""C15 - no memory error / UB / failed assertion / leak on valid use (DESIGN 5.15, 9.3, 9.12).
 What is decided by proof is the *protocol* part: the ownership / queued-action model of Avoid::Router
-(coq/theories/Avoid/LifecycleModel.v) never dereferences a freed object, frees nothing twice and releases
-everything at destruction, for all op sequences.  The tie is a correspondence: random legal API histories are
-replayed on the real Router (ASan+UBSan+LSan, assertions as exceptions) and on the extracted model; the
-observable ownership state (scene objects, connectors, queued actions) must agree after every call, and the
-sanitizers must stay silent."""
+(coq/theories/Avoid/LifecycleModel.v: core model = shapes, junctions, connectors, the action queue; second layer = the
+checkpoint VertInfs a connector owns, op XSetCP = ConnRef::setRoutingCheckpoints) never dereferences a freed object, frees
+nothing twice and releases everything at destruction, for all op sequences (Avoid/Lifecycle.v, Avoid/LifecycleCP.v).
+The tie is a correspondence: legal API histories (ops R S J C E M D DJ X K I T Q, see harness/c15_life.cpp) are replayed on
+the real Router (ASan+UBSan+LSan, assertions as exceptions) and on the extracted model; the observable ownership state (scene
+objects, connectors, queued actions, checkpoint vertices per connector in the router's vertex list) must agree after every
+call, and the sanitizers must stay silent.
+Everything else is SAMPLED, not proved: checks/c15sweep.py runs the harnesses of the other properties (libvpsc rectangles and
+both solvers, libavoid's solver copy, libcola compound constraints / layouts / clusters / shortest paths, libtopology,
+libdialect SepMatrix / TGLF / peel / trees / planarise / doHOLA), built with the sanitizers, on a modest option-covering
+sample of the inputs that the other checks' generators produce, one process per input."""
 import os, re, json, collections
 from concurrent.futures import ThreadPoolExecutor
 from vlib import common as C
@@ -40,38 +46,49 @@ def fingerprint(rc, out, err):
     return 'rc=%d' % rc
 
 
-def make_known_elsewhere(res):
+def known_elsewhere(res, fp, unit=None):
     """assertion sites (and crashes) that are already KNOWN-FINDINGs of the property that owns the code path are recognised by their
-    existing fingerprints: `assert:<file>:<expr>` recorded under another property, C14's `exception:assert:<file>:<expr>` and - for
-    doHOLA runs only - C14's blanket `exception:assert` (rate-bounded in c15sweep.sweep)"""
-    printed = set()
+    existing fingerprints: `assert:<file>:<expr or a prefix>` recorded under another property, with or without C14's `exception:` prefix,
+    any other fingerprint by equality (classifier names produced by c15sweep.refine) and - for doHOLA runs only - C14's blanket
+    `exception:assert` (rate-bounded in c15sweep.sweep).  Returns the known-finding record or None; a finding of C15 itself is not looked up here."""
+    for k in res.known:
+        if k['property'] == PID:
+            continue
+        kf = k['fingerprint']
+        site = kf[len('exception:'):] if kf.startswith('exception:') else kf
+        if site.startswith('assert:') and site.count(':') >= 2 and len(site.split(':', 2)[2]) >= 4 and fp.startswith(site):
+            return k
+        if kf == fp or fp.startswith(kf + ':'):
+            return k
+    if unit == 'dialect.hola' and fp.startswith('assert:'):
+        return next((k for k in res.known if k['property'] == 'C14' and k['fingerprint'] == 'exception:assert'), None)
+    return None
 
-    def known_elsewhere(fp, unit=None):
-        if res.known_fingerprint(fp):
-            return False                     # a known finding of C15 itself: res.violation prints it
-        hit = None
-        for k in res.known:
-            if k['property'] == PID:
+
+def emit(res, reports):
+    """VIOLATION lines first, KNOWN-FINDING lines after them (tools print only the head of the output)"""
+    known_own, known_other, unknown = [], [], []
+    for obj, fp, unit, no_input in reports:
+        if fp and res.known_fingerprint(fp):
+            known_own.append((obj, fp))
+        elif fp and known_elsewhere(res, fp, unit):
+            known_other.append((fp, known_elsewhere(res, fp, unit)))
+        else:
+            unknown.append((obj, fp, no_input))
+    for obj, fp, no_input in unknown:
+        res.violation(obj, fingerprint=fp, no_input=no_input)
+
+    def known_lines():
+        for obj, fp in known_own:
+            res.violation(obj, fingerprint=fp)
+        done = set()
+        for fp, hit in known_other:
+            if fp in done:
                 continue
-            kf = k['fingerprint']
-            site = kf[len('exception:'):] if kf.startswith('exception:') else kf
-            # an assertion site recorded elsewhere: `assert:<file>:<expression or a prefix of it>` (at least file and expression)
-            if site.startswith('assert:') and site.count(':') >= 2 and len(site.split(':', 2)[2]) >= 4 and fp.startswith(site):
-                hit = k
-                break
-            if kf == fp or fp.startswith(kf + ':'):
-                hit = k
-                break
-        if not hit and unit == 'dialect.hola' and fp.startswith('assert:'):
-            hit = next((k for k in res.known if k['property'] == 'C14' and k['fingerprint'] == 'exception:assert'), None)
-        if not hit:
-            return False
-        if fp not in printed:
-            printed.add(fp)
+            done.add(fp)
             res.known_hits.append((fp, 'recorded under %s: %s' % (hit['property'], hit['text'])))
             print('KNOWN-FINDING: property=%s (recorded under %s, fingerprint %s) %s [%s]' % (PID, hit['property'], hit['fingerprint'], hit['text'][:300], fp), flush=True)
-        return True
-    return known_elsewhere
+    return known_lines
 
 
 def corpus():
@@ -136,7 +153,7 @@ def run(tier):
     opkinds = collections.Counter()
     disagreements, san_fail, model_bad = [], 0, 0
     seen_fp = {}
-    known_elsewhere = make_known_elsewhere(res)
+    reports = []
     calls = 0
     distinct = set()
     for h, (rc, out, err), (mlines, mend) in zip(hs, impl, mchunks):
@@ -152,13 +169,10 @@ def run(tier):
                 seen_fp[fp] += 1
                 continue
             seen_fp[fp] = 1
-            if known_elsewhere(fp, 'avoid.lifecycle'):
-                continue
             rep = '\n'.join(l for l in err.split('\n') if re.match(r'\s+#[0-6] ', l) or 'SUMMARY' in l or 'ERROR' in l)[:2500]
-            res.violation({'what': 'sanitizer / assertion report on a legal API history', 'history': h, 'report': rep,
-                           'assert': out[-400:] if 'ASSERT' in out else None,
-                           'replay': 'printf "%%s\\n" ... | %s  (build/bin/c15_life-asan-exc-*)' % os.path.basename(exe)},
-                          fingerprint=fp)
+            reports.append(({'what': 'sanitizer / assertion report on a legal API history', 'history': h, 'report': rep,
+                             'assert': out[-400:] if 'ASSERT' in out else None,
+                             'replay': 'printf "%%s\\n" ... | %s  (build/bin/c15_life-asan-exc-*)' % os.path.basename(exe)}, fp, 'avoid.lifecycle', False))
             continue
         m_illegal = int(mend.split('illegal')[1])
         if 'bad |' not in mend.replace('bad  |', 'bad |') and not re.search(r'bad \|', mend):
@@ -174,7 +188,7 @@ def run(tier):
             disagreements.append({'history': h, 'what': 'model predicts a use-after-free or a leak that the sanitizers did not report', 'model_end': mend})
     # ---- second part: the other libraries under the sanitizers, through the other properties' harnesses and generators
     t_sw = __import__('time').time()
-    sweep_cov = S.sweep(res, tier, rng.fork(), known_elsewhere)
+    sweep_cov = S.sweep(res, tier, rng.fork(), reports)
     sweep_cov['wall_s'] = round(__import__('time').time() - t_sw, 1)
     n_sw = sum(u['inputs'] for u in sweep_cov['units'].values())
     res.cov['library_sweep'] = sweep_cov
@@ -196,12 +210,14 @@ def run(tier):
         'op_histogram': dict(opkinds), 'sanitizer_failures': san_fail, 'failure_fingerprints': seen_fp, 'model_disagreements': len(disagreements)})
     res.assumptions = ['ASan/UBSan/LSan observe the run-time part (they are the implementation-side observation for freed/dangling/leaked)',
                        'junctions and shapes are both "obstacles" in the model; connection-pin change markers are not modelled (never dereferenced)']
+    known_lines = emit(res, reports)
     if disagreements:
         res.violation({'what': 'protocol model and implementation disagree on the ownership state; the sanitizers reported nothing on that history',
                        'correspondence': disagreements[:3], 'n': len(disagreements)}, no_input=True)
     elif not info['ok']:
         res.violation({'what': 'proof obligations of the protocol model no longer check', 'broken_lemmas': info.get('broken_lemmas'),
                        'broken_files': info.get('broken'), 'forbidden': info.get('forbidden'), 'coq_log_tail': info['log'][-2000:]}, no_input=True)
+    known_lines()
     return res.finish()
 
 
@@ -233,15 +249,35 @@ META = {
     'property_id': PID,
     'level_claimed': {
         'category': 'other',
-        'text': 'Proof (Coq) of the ownership / queued-action protocol model of Avoid::Router only: for all op sequences no queued pointer is '
-                'dereferenced after its object was freed, nothing is freed twice, and destruction releases everything; the pre-fix code '
-                'variants are refuted by computed witnesses (F-k use-after-free, F-l leak). The model is tied to the code by correspondence '
-                '(ownership state after every API call, model vs real Router). Heap safety, UB, assertions and leaks of the C++ itself cannot '
-                'be proved with what is installed: they are sampled by replaying legal API histories under ASan+UBSan+LSan with assertions on.',
-        'design_ref': 'DESIGN.md 5.15'},
-    'level_note': 'Trusted: Coq kernel; extraction; the hand-written model LifecycleModel.v (libavoid Router only; libvpsc/libcola/libtopology/'
-                  'libdialect lifecycles are covered only through the other properties\' harnesses); sanitizer runtime as the observer of '
-                  'freed/dangling/leaked memory; generator domain = documented preconditions (no add+delete of one object in one transaction, '
-                  'no use of an object after its delete call, no connector from a junction to itself). Termination is not addressed.',
-    'technique': 'Coq invariant proof over a protocol model + model/implementation correspondence under sanitizers',
+        'text': 'PROVED (Coq, all op sequences, both transaction modes, both routing modes) about the hand-written ownership protocol model of '
+                'Avoid::Router only: (core) no queued pointer - action object, queued connector-end copy, attached follower - is dereferenced '
+                'after its object was freed, nothing is freed twice, every queued object / end / follower is allocated, the heap has no '
+                'duplicates and is disjoint from the free history, ~Router releases everything; (checkpoint layer, op XSetCP = '
+                'setRoutingCheckpoints modelled as "free all old vertices, clear the list, allocate k new") every entry of a connector\'s '
+                'checkpoint-vertex list is an allocated vertex of an allocated connector, no vertex is in two lists or twice in one, every '
+                'allocated vertex is in some list, vertex ids are fresh, set / replace / clear / reroute / ~ConnRef / ~Router never touch a freed '
+                'vertex and ~Router leaves no vertex allocated. The code variants before the F-k / F-l repairs and the variant of '
+                'setRoutingCheckpoints that keeps the freed vertices in the list are refuted by computed witnesses. The model is tied to the '
+                'code by correspondence (ownership state incl. checkpoint vertices per connector after every API call, model vs real Router). '
+                'SAMPLED, not proved: heap safety, UB, assertions and leaks of the C++ of all five libraries - legal libavoid lifecycle '
+                'histories and, for libvpsc / libcola / libtopology / libdialect / libavoid\'s solver copy, inputs from the other properties\' '
+                'generators through their harnesses, all under ASan+UBSan+LSan, one process per input.',
+        'design_ref': 'DESIGN.md 5.15, 9.3, 9.12'},
+    'level_note': 'Trusted: Coq kernel; extraction; the hand-written model LifecycleModel.v (libavoid Router only; rerouting is over-approximated as '
+                  '"every active connector dereferences all its checkpoint vertices whenever a transaction did something"); sanitizer runtime as the '
+                  'observer of freed/dangling/leaked memory; generator domain = documented preconditions (no add+delete of one object in one '
+                  'transaction, no use of an object after its delete call, no connector from a junction to itself - also not via setEndpoint). '
+                  'Library sweep (checks/c15sweep.py): no model, no proof; units vpsc.rect (removeoverlaps thirdPass false/true, fixed sets, '
+                  'generateX/YConstraints), vpsc.solver (IncSolver + static Solver, histories, object re-use), avoid.vpsc, cola.cc (all compound '
+                  'constraints, FD and majorization layouts, every run-axis mode, object re-use), cola.nonoverlap (clusters), cola.paths, topology, '
+                  'dialect.sep, dialect.peel, dialect.tree, dialect.plan, dialect.hola. Limits: harness modes that fork and _exit (c13 scenes, c18 tglf, '
+                  'c19 planarise) cannot show leaks; c13 layout mode runs with leak detection off (the harness does not free its scene); c20_layout '
+                  'is not used (it replaces operator new); libtopology self-check assertions in the scene / layout modes are left to C13\'s classifiers '
+                  '(counted and bounded at 1/8 of the inputs); assertion sites already recorded as known findings of C10 / C11 / C14 are recognised '
+                  'by those fingerprints (doHOLA assertions by C14\'s blanket finding, bounded at 1/12 of the runs); leak fingerprints are '
+                  '"leak:<file>:<innermost library function>" per directly leaked allocation site, narrowed by a classifier where the same site '
+                  'could leak for another reason. Termination is only observed through timeouts. Uninitialised reads are observed only as far as '
+                  'UBSan sees them (invalid bool / enum loads); there is no MemorySanitizer run.',
+    'technique': 'Coq invariant proof over a protocol model + model/implementation correspondence under sanitizers + sanitizer sweep over the other '
+                 'properties\' harnesses and generators',
 }
